@@ -360,6 +360,33 @@ def find_region(path, fn_selector, start_pat, end_pat):
             if all(toks[code[ci + q]].text == pat[q] for q in range(len(pat))):
                 return ci
         return None
+    def stmt_end(ci):
+        """code index of the last token of the statement that starts at code index ci (block statements end with their last
+           block, including else chains; other statements with `;`)"""
+        q = ci
+        blockish = toks[code[ci]].kind == "ident" and toks[code[ci]].text in ("for", "while", "loop", "if", "match")
+        while q < len(code):
+            tq = toks[code[q]]
+            if tq.kind == "punct" and tq.text in "([":
+                q = pos_of_tok[match_close(toks, code[q])] + 1
+                continue
+            if tq.kind == "punct" and tq.text == "{":
+                q = pos_of_tok[match_close(toks, code[q])] + 1
+                if blockish:
+                    if q < len(code) and toks[code[q]].kind == "ident" and toks[code[q]].text == "else":
+                        q += 1
+                        continue
+                    if q < len(code) and toks[code[q]].kind == "punct" and toks[code[q]].text == ";":
+                        return q
+                    return q - 1
+                continue
+            if tq.kind == "punct" and tq.text == ";":
+                return q
+            if tq.kind == "punct" and tq.text in ")]}":
+                return q - 1
+            q += 1
+        return None
+    pos_of_tok = {ti: ci for ci, ti in enumerate(code)}
     after_stmt = start_pat.startswith(">>")
     if after_stmt:
         # `>>pattern`: the region starts with the statement FOLLOWING the statement that starts with the pattern
@@ -367,19 +394,8 @@ def find_region(path, fn_selector, start_pat, end_pat):
         a0 = find(start_pat, 0)
         if a0 is None:
             raise LostAnchor("region start `>>%s` not found in %r of %s" % (start_pat, fn_selector, path))
-        q = a0
-        a = None
-        while q < len(code):
-            tq = toks[code[q]]
-            if tq.kind == "punct" and tq.text in "([{":
-                cl = match_close(toks, code[q])
-                while q < len(code) and code[q] <= cl:
-                    q += 1
-                continue
-            if tq.kind == "punct" and tq.text == ";":
-                a = q + 1
-                break
-            q += 1
+        e0 = stmt_end(a0)
+        a = None if e0 is None else e0 + 1
         if a is None or a >= len(code):
             raise LostAnchor("region start `>>%s`: no following statement in %r" % (start_pat, fn_selector))
     after = (not after_stmt) and start_pat.startswith(">")
@@ -418,6 +434,30 @@ def find_region(path, fn_selector, start_pat, end_pat):
     # end of the statement that starts at code[b]
     q = b
     end_i = None
+    if toks[code[b]].kind == "ident" and toks[code[b]].text in ("for", "while", "loop", "if", "match"):
+        # a block statement: ends with the closing brace of its (last) block; `else` / `else if` chains belong to it
+        while q < len(code):
+            tq = toks[code[q]]
+            if tq.kind == "punct" and tq.text in "([":
+                cl = match_close(toks, code[q])
+                while q < len(code) and code[q] <= cl:
+                    q += 1
+                continue
+            if tq.kind == "punct" and tq.text == "{":
+                cl = match_close(toks, code[q])
+                while q < len(code) and code[q] <= cl:
+                    q += 1
+                if q < len(code) and toks[code[q]].kind == "ident" and toks[code[q]].text == "else":
+                    q += 1
+                    continue
+                end_i = cl
+                if q < len(code) and toks[code[q]].kind == "punct" and toks[code[q]].text == ";":
+                    end_i = code[q]
+                break
+            q += 1
+        if end_i is None:
+            raise LostAnchor("region end statement `%s`: no block found" % end_pat)
+        q = len(code)
     while q < len(code):
         tq = toks[code[q]]
         if tq.kind == "punct" and tq.text in "([{":
